@@ -235,6 +235,9 @@ func checkC12(w *World, tier string) *Report {
 	r.Assumptions = append(r.Assumptions, "StateDB getters (GetState, …) do not change observable state", "the recorder (Tracer family) has no effect outside itself: C01 R1.4a")
 	addNeverFailsRule(w, r, "R11.8") // a well-formed key journal cannot be refused because of earlier registrations
 	addRegistrationRefusalRule(w, r, "R12.6")
+	addScratchDisciplineRule(w, r, "R12.7")
+	addSharedConstRule(w, r, "R16.2") // a journal instruction that overwrites a shared 256-bit constant changes every later execution in the process
+	r.Explanation += " R12.7 the interpreter's digest scratch buffer is read, in every fork function, only after that same function hashed into it (dominance): no instruction consumes a digest another instruction left behind, so the journal instructions, which hash through the same buffer, cannot change what a later instruction computes."
 	r.Explanation += " R12.6 every condition that decides an error return of StateChanges.saveKey is a test of the offset operand, a nil test of a parameter, the parent not found by findKey, or the error of a callee: a well-formed key journal is not refused because of what was or was not recorded before (e.g. an account without a root yet)."
 	addJustifiedRefusalRule(w, r, "R12.5", []string{"loadDataFromMem"}, nil)
 	r.need("R12.5", 4)
